@@ -270,7 +270,7 @@ impl Tokenizer<'_> {
                 ')' | ']' | '}' => {
                     let Some(top) = stack.pop() else {
                         return Err(KikiErr::Lex(
-                            ByteIndex(current_index),
+                            ByteIndex(bracket_start.0 + current_index),
                             Some(current),
                         ));
                     };
@@ -278,7 +278,10 @@ impl Tokenizer<'_> {
                         ('(', ')') | ('[', ']') | ('{', '}') => {}
 
                         _ => {
-                            return Err(KikiErr::Lex(ByteIndex(current_index), Some(current)));
+                            return Err(KikiErr::Lex(
+                                ByteIndex(bracket_start.0 + current_index),
+                                Some(current),
+                            ));
                         }
                     }
                 }
